@@ -322,3 +322,192 @@ func VH_printTwice(where int) {
 	}
 	verifAssert("print-shows-the-value-whatever-was-printed-before", verifTextContainsInOrder(second, specNumText(y)))
 }
+
+// VH_cyclicShared (C13 / C15): one object reaching two mutually cyclic objects along different
+// routes prints the same text every time it is printed — every map range under its own
+// iteration order — and the holder's own properties all show.
+func VH_cyclicShared() {
+	src := kwVar + " a = {n: 1};\n" + kwVar + " b = {n: 2};\na.b = b;\nb.a = a;\n" + kwVar + " r = {x: a, y: b};\n" + kwPrint + " r;\n" + kwPrint + " r;\n"
+	got, ok := runSource(src)
+	verifAssert("cyclic-print-program-runs", ok && len(got) == 2)
+	if len(got) == 2 {
+		verifAssert("same-output-every-time", got[0] == got[1])
+		verifAssert("printed-object-shows-every-property", verifTextContainsInOrder(got[0], "x", "n", "1", "y", "n", "2"))
+	}
+}
+
+// specResultValue: the value a specification result stands for (ok=false unless it is a value).
+func specResultValue(r specResult) (interface{}, bool) {
+	if r.cls != clsValue {
+		return nil, false
+	}
+	switch r.kind {
+	case rkNum:
+		return r.num, true
+	case rkBool:
+		return r.b, true
+	}
+	return r.str, true
+}
+
+// VH_chain3 (C01 / C02): a op1 b op2 c with op1, op2 of the additive level and each operand a
+// number or a one-code-point string, through the real parser and evaluator: the value is
+// (a op1 b) op2 c — left association decides what is concatenated and what is added — and the
+// program with those parentheses written out yields the same value.
+func VH_chain3() {
+	operand := func(i int) (token.Token, interface{}) {
+		if verifChoice(2) == 0 {
+			f := verifNondetFloat()
+			return token.Token{Type: token.NUMBER, Lexeme: "n", Literal: f, Line: 1}, f
+		}
+		v := stringLiteralValue(hvText(1))
+		x, _ := NewInterpreter().eval(&ast.Literal{Value: v, Line: 1}, environment.NewEnvironment(), false)
+		return token.Token{Type: token.STRING, Lexeme: "s", Literal: v, Line: 1}, x
+	}
+	opTok := func() token.Token {
+		if verifChoice(2) == 0 {
+			return tok(token.PLUS, "+", 1)
+		}
+		return tok(token.MINUS, "-", 1)
+	}
+	ta, a := operand(0)
+	tb, b := operand(1)
+	tc, c := operand(2)
+	o1, o2 := opTok(), opTok()
+	if o2.Type == token.MINUS && (hvIsStr(a) || hvIsStr(b)) {
+		// subtracting from a concatenation that embeds a symbolic number's text: the operand
+		// check would have to read that text digit by digit — outside what is encoded
+		verifReach("chain-open")
+		return
+	}
+	run := func(toks []token.Token) (interface{}, bool, int) {
+		utils.HadError, utils.HadRuntimeError = false, false
+		verifClearEvents()
+		stmts, _ := parser.NewParser(toks).Parse()
+		if utils.HadError || len(stmts) != 1 {
+			return nil, false, 0
+		}
+		res := NewInterpreter().Interpret(stmts, false)
+		var got interface{}
+		if len(res) > 0 && !utils.HadRuntimeError {
+			got = res[len(res)-1]
+		}
+		return got, true, hvCountStderr()
+	}
+	semi, eof := tok(token.SEMICOLON, ";", 1), tok(token.EOF, "", 1)
+	plain, ok1, nerr1 := run([]token.Token{ta, o1, tb, o2, tc, semi, eof})
+	verifAssert("chain-parses", ok1)
+	if !ok1 {
+		return
+	}
+	failed1 := utils.HadRuntimeError
+	want := specBinary(a, o1.Type, b)
+	if mid, isVal := specResultValue(want); isVal {
+		want = specBinary(mid, o2.Type, c)
+	}
+	checkResult("chain-", plain, want, nerr1)
+	paren, ok2, _ := run([]token.Token{tok(token.LEFT_PAREN, "(", 1), ta, o1, tb, tok(token.RIGHT_PAREN, ")", 1), o2, tc, semi, eof})
+	verifAssert("chain-parses", ok2)
+	if ok2 {
+		verifAssert("parentheses-of-the-ladder-do-not-change-the-value", failed1 == utils.HadRuntimeError && hvIdentical(plain, paren))
+	}
+}
+
+// spellingNames: identifiers whose code points NFC would rewrite (U+09DC, U+09DF, the two-part
+// vowel sign written as its parts) next to plain ones.
+var spellingNames = []string{"x", "\u09ac\u09dc", "\u09df", "\u0995\u09c7\u09be", "e\u0301", "\u09af\u09bc"}
+
+// VH_nameSpelling (C03): declaration, redeclaration, shadowing and assignment behave the same
+// whatever code points a name is made of: redeclaring in the same scope (a parameter, a
+// variable) is an error, an inner block may shadow, assignment reaches the visible binding.
+func VH_nameSpelling() {
+	n := spellingNames[verifChoice(len(spellingNames))]
+	switch verifChoice(4) {
+	case 3:
+		// a parameter may bear the function's own name: inside, the name is the parameter
+		src := kwFun + " " + n + "(" + n + ") { " + kwReturn + " " + n + " * 2; }\n" + kwPrint + " " + n + "(4);\n" + kwFun + " g(g, h) { " + kwReturn + " g + h; }\n" + kwPrint + " g(1, 2);\n"
+		got, ok := runSource(src)
+		verifAssert("scope-program-runs", ok)
+		verifAssert("read-yields-the-innermost-visible-binding", sameLines(got, []string{"8", "3"}))
+	case 0:
+		src := kwFun + " f(" + n + ") { " + kwVar + " " + n + " = 0; " + kwReturn + " " + n + "; }\n" + kwPrint + " \"s\";\n" + kwPrint + " f(41);\n" + kwPrint + " \"t\";\n"
+		got, ok := runSource(src)
+		verifAssert("scope-error-reported", !ok)
+		verifAssert("read-yields-the-innermost-visible-binding", sameLines(got, []string{"s"}))
+	case 1:
+		src := kwVar + " " + n + " = 1;\n" + kwPrint + " " + n + ";\n" + kwVar + " " + n + " = 2;\n" + kwPrint + " " + n + ";\n"
+		got, ok := runSource(src)
+		verifAssert("scope-error-reported", !ok)
+		verifAssert("read-yields-the-innermost-visible-binding", sameLines(got, []string{"1"}))
+	default:
+		src := kwVar + " " + n + " = 1;\n{ " + kwVar + " " + n + " = 2; " + kwPrint + " " + n + "; }\n" + kwPrint + " " + n + ";\n" + n + " = 3;\n" + kwPrint + " " + n + ";\n"
+		got, ok := runSource(src)
+		verifAssert("scope-program-runs", ok)
+		verifAssert("read-yields-the-innermost-visible-binding", sameLines(got, []string{"2", "1", "3"}))
+	}
+}
+
+// VH_arrayValues (C11): a[i] = v stores a value of every kind — nil, the nil a function without
+// return yields, booleans, text, arrays, objects, functions — visibly through an alias, and an
+// out-of-range write is an error whatever the value is.
+func VH_arrayValues() {
+	vals := [][2]string{
+		{"nil", "b[1] == nil"}, {"g()", "b[1] == nil"}, {"\u09b8\u09a4\u09cd\u09af", "b[1] == \u09b8\u09a4\u09cd\u09af"}, {"\"s\"", "b[1] == \"s\""},
+		{"[7]", "b[1][0] == 7"}, {"{k: 7}", "b[1].k == 7"}, {"f", "b[1]() == 1"}, {"u", "b[1] == nil"},
+	}
+	v := vals[verifChoice(len(vals))]
+	bad := []string{"7", "3", "-1", "1.5", "\"x\""}[verifChoice(5)]
+	src := kwVar + " a = [1, 2, 3];\n" + kwVar + " b = a;\n" + kwVar + " u;\n" + kwFun + " g() { }\n" + kwFun + " f() { " + kwReturn + " 1; }\n" +
+		"a[1] = " + v[0] + ";\n" + kwPrint + " b[1] == 2;\n" + kwPrint + " " + v[1] + ";\n" +
+		"a[" + bad + "] = " + v[0] + ";\n" + kwPrint + " \"unreached\";\n"
+	got, ok := runSource(src)
+	verifAssert("invalid-array-operation-is-an-error", !ok)
+	verifAssert("indexed-read-yields-the-element", sameLines(got, []string{"false", "true"}))
+}
+
+// VH_valuesShared (C12): the values a listing hands out are the property values themselves: an
+// object or array reached through the listing is the one the property holds (changes show both
+// ways, == holds), at each position of the listing.
+func VH_valuesShared() {
+	which := verifChoice(2)
+	var src string
+	if which == 0 {
+		src = kwVar + " o = {a: {n: 5}, b: [1, 2]};\n" + kwVar + " vs = " + nameValues + "(o);\n" +
+			"vs[0].n = 0;\nvs[1][0] = 9;\n" + kwPrint + " o.a.n;\n" + kwPrint + " o.b[0];\n" +
+			kwPrint + " vs[0] == o.a;\n" + kwPrint + " vs[1] == o.b;\no.a.n = 7;\n" + kwPrint + " vs[0].n;\n"
+	} else {
+		src = kwVar + " inner = {n: 5};\n" + kwVar + " o = {z: inner, y: 3};\n" + kwVar + " vs = " + nameValues + "(o);\n" +
+			"inner.n = 0;\n" + kwPrint + " vs[1].n;\n" + kwPrint + " vs[0];\n" +
+			kwPrint + " vs[1] == inner;\n" + kwPrint + " " + nameValues + "(o)[1] == vs[1];\nvs[1].m = 7;\n" + kwPrint + " o.z.m;\n"
+	}
+	got, ok := runSource(src)
+	verifAssert("values-program-runs", ok)
+	want := []string{"0", "9", "true", "true", "7"}
+	if which == 1 {
+		want = []string{"0", "3", "true", "true", "7"}
+	}
+	verifAssert("listed-value-is-the-property-value-itself", sameLines(got, want))
+}
+
+// VH_minmaxNested (C17): min/max take numbers or ONE array of numbers: an array element that is
+// itself an array is not a number, however the arrays nest ([[x, y]], [[x]], [[[x]]], [[x], y]).
+func VH_minmaxNested(which int) {
+	in := NewInterpreter()
+	env := environment.NewEnvironmentWithParent(in.globals)
+	x, y := verifNondetFloat(), verifNondetFloat()
+	var arg interface{}
+	switch verifChoice(4) {
+	case 0:
+		arg = []interface{}{[]interface{}{x, y}}
+	case 1:
+		arg = []interface{}{[]interface{}{x}}
+	case 2:
+		arg = []interface{}{[]interface{}{[]interface{}{x}}}
+	default:
+		arg = []interface{}{[]interface{}{x}, y}
+	}
+	utils.HadError, utils.HadRuntimeError = false, false
+	verifClearEvents()
+	got, _ := in.eval(&ast.Call{Callee: ident(mathNames[which], 5), Paren: tok(token.RIGHT_PAREN, ")", 5), Arguments: []ast.Expr{lit(arg, 5)}}, env, false)
+	verifAssert("minmax-of-non-number-is-an-error", utils.HadRuntimeError && got == nil && hvCountStderr() >= 1)
+}
